@@ -29,7 +29,8 @@ def sample_settings(r, doc, rich=True):
         s["map_type"] = "::vrt::support::VMap"
         sig.append("vmap")
     if r.random() < 0.3:
-        s["derives"] = ["PartialEq"]
+        # (also derives every type already carries: a request must never REMOVE one)
+        s["derives"] = r.choice([["PartialEq"], ["PartialEq"], ["Clone"], ["Debug", "PartialEq"], ["Clone", "Debug"]])
         sig.append("derive")
     if r.random() < 0.2:
         s["type_mod"] = "types"
@@ -41,7 +42,7 @@ def sample_settings(r, doc, rich=True):
         if r.random() < 0.7:
             p["rename"] = "Renamed" + sanitize_guess(tgt)
         if r.random() < 0.5 and scalar_only((doc.get("definitions") or {}).get(tgt)):
-            p["derives"] = ["PartialEq"]
+            p["derives"] = r.choice([["PartialEq"], ["Clone"], ["PartialEq", "Debug"]])
         s["patches"] = [p]
         sig.append("patch")
     if rich and defs and r.random() < 0.15:
